@@ -496,8 +496,11 @@ def check_outputs(ctx: Ctx, h: dict, count: bool = True) -> tuple[bool, bool]:
                            f"keeps checking against the deleted stub ({hist_state['stub_removed']}, follow-imports={h['mode']}, step {k}): {diff[:3]}",
                            replay_of(h, k, diff))
                 break
-            if rest and hist_state["followed_moved"] and lines_within(rest_lines, dependents(st["files"], sorted(hist_state["followed_moved"]))
-                                                                    | dependents(h["steps"][k - 1]["files"] if k else {}, sorted(hist_state["followed_moved"]))):
+            # (a blocker reported for the old file of such a module replaces the whole output)
+            blocker_in_moved = bool(m) and m.group(1) in hist_state["followed_moved"]
+            if rest and hist_state["followed_moved"] and (blocker_in_moved or lines_within(
+                    rest_lines, dependents(st["files"], sorted(hist_state["followed_moved"]))
+                    | dependents(h["steps"][k - 1]["files"] if k else {}, sorted(hist_state["followed_moved"])))):
                 ctx.report({"class": "followed-module-file-change", "mode": "entry-points-only"},
                            f"only the entry points are given to the daemon; a module reached by following imports was deleted, created or "
                            f"moved ({sorted(hist_state['followed_moved'])}) and the daemon's answer for its importers differs from a full check "
